@@ -51,8 +51,8 @@ fn main() {
     }
     let mut subs = 0usize;
     copy_dir(&Path::new(&repo).join("src"), &dst, &mut subs);
-    if subs != 6 {
-        println!("cargo:warning=overlay: expected 6 std::sync::Mutex substitutions in fixtures/mod.rs, made {}", subs);
+    if subs != 8 {
+        println!("cargo:warning=overlay: expected 8 std::sync::Mutex substitutions in fixtures/mod.rs, made {}", subs);
     }
     fs::write(
         out.join("overlay_info.rs"),
